@@ -6,6 +6,67 @@ import os
 ROOT = os.path.dirname(os.path.dirname(os.path.abspath(__file__)))
 
 CHECKS = {
+    "C09": dict(
+        cat="exploration",
+        text="MemoryValue.read of all 97 declared values and MemoryBank.read_all of the 9 banks run against a specification "
+             "model of 102 9.10 memory inside model gear / control devices (short, device and int addressing), over "
+             "structured and random images, truncated banks (last accessible location around and inside each value), "
+             "holes, latch on/off with the live image changing after every read, and silence / framing error injected at "
+             "every command of the read. Oracle: reference decoding of the stored bytes, MemoryLocationNotImplemented "
+             "exactly when a location is missing, ResponseError on garbled answers, whole-bank result == values decoded "
+             "from the snapshot latched at the start, memory unchanged and bank not left latched afterwards.",
+        note="Trusts models/membank.py (incl. the writeEnableState rule), spec/membank_layout.py decoders. Post-state is "
+             "judged after reads that return.",
+        tech="runtime monitoring: specification-model post-state oracle + fault injection at every command position",
+        ref="DESIGN.md §4 C09"),
+    "C10": dict(
+        cat="fault_enumeration",
+        text="write_raw / write of every declared value (27 writable, 70 refused) plus 258 user-declared values covering "
+             "every access-class combination of width 1..3, against the memory model with the lock byte initially locked / "
+             "unlocked / odd. Fault enumeration: silence, framing error and a substituted answer at every index of the "
+             "command stream; unit variants that stay locked, do not advance DTR0, echo a wrong byte, have a shorter bank "
+             "or refuse one location. Oracle: a normal return implies memory == pre-image with exactly the requested bytes "
+             "and the bank re-locked; any fault on an answered command and every unit variant must raise one of the "
+             "documented exceptions; read-only values are refused before a frame is sent; wrong lengths raise ValueError.",
+        note="Trusts models/membank.py; faults on commands without an answer need not raise.",
+        tech="runtime monitoring with fault enumeration: one fault per (kind, command index) + non-conforming unit models",
+        ref="DESIGN.md §4 C10"),
+    "C11": dict(
+        cat="exploration",
+        text="check_raw / raw_to_value / from_list of all 81 table values are compared with reference decoders from a "
+             "hand-transcribed layout of IEC 62386-102 9.10.6/7 and DiiA 251/252/253 for every 1-byte string, strided "
+             "(thorough: all) 2-byte strings and boundary/random wider strings (MASK, TMASK, min/max edges, scale bytes, "
+             "non-ASCII, embedded NUL); value_to_raw round-trips for plain numbers and ASCII strings; every declared value "
+             "must sit at the table's bank / location range / access class / MASK-TMASK support, no overlaps, lockable "
+             "locations only with a lock byte, bank.locations consistent with bank.values.",
+        note="The layout table is the author's transcription; cells listed in its PINNED set were pinned to the reviewed "
+             "library value.",
+        tech="runtime monitoring: reference decoder oracle over enumerated raw strings + declared-layout comparison",
+        ref="DESIGN.md §4 C11"),
+    "C13": dict(
+        cat="exploration",
+        text="query_input_value for every resolution 1..32 (all values up to 12 bits, boundary/random above), "
+             "SetEventFilters/QueryEventFilters for shipped and user-defined 8/16/24-bit filter enums with stale DTR "
+             "contents, SetEventSchemes for all schemes and invalid ones, and autodiscover over random populations of "
+             "0..64 control devices (status bits, 0..32 instances, duplicates) in all four address-argument forms, each "
+             "also with silence / framing error at a random or every step, against a 103 device model at varying "
+             "addresses and instance numbers. Oracle: exact reassembled value, instance filter/scheme == request and "
+             "returned read-back, mapping == enabled instances of healthy devices, quiescent bracket, faults lead to "
+             "skip / None / DALISequenceError only.",
+        note="Trusts models/device103.py.",
+        tech="runtime monitoring: specification-model post-state oracle, fault injection per command",
+        ref="DESIGN.md §4 C13"),
+    "C14": dict(
+        cat="exploration",
+        text="SetDT8ColourValueTc / SetDT8TcLimit for every 16th (thorough: every) mirek 0..65535 x short/int/group/"
+             "broadcast destinations at varying addresses, QueryDT8ColourValue for all 73 selectors x stored values "
+             "(MSB 255 => None) and silence/garble on each of its four commands, against a 209 Tc unit model behind the "
+             "device-type-enable and send-twice rules; an order monitor over the wire log checks DTR0/DTR1(/DTR2) loads "
+             "before the DT8 command and ACTIVATE after it; out-of-range / wrong-type mirek and non-selector query "
+             "arguments must raise before the first command.",
+        note="Trusts models/tc209.py and models/gear102.py.",
+        tech="runtime monitoring: specification-model state oracle + order monitor over yielded frames",
+        ref="DESIGN.md §4 C14"),
     "C06": dict(
         cat="exploration",
         text="All 39 response classes reachable from command classes (plus the secondary byte classes of part 205 and "
